@@ -160,7 +160,7 @@ theorem C20_mirror_faithful (n : Nat) (o : Outcome) (pre post : List Ev) (fuel :
 
 /-- **C20, a cancellable action runs its function at most once**: after any history of `run()` and `cancel()` calls
 (from any state `s0` of the rest of the world) the function has been called at most once. -/
-theorem C20_action_runs_at_most_once (s0 : State) (fn : Call) (evs : List AEv) :
+theorem C20_action_runs_at_most_once (s0 : State) (fn : ActFn) (evs : List AEv) :
     let a := (newAction s0 fn).2
     let s := actRun a (newAction s0 fn).1 evs
     ∃ act, s.acts a = some act ∧ act.calls ≤ 1 :=
@@ -169,7 +169,7 @@ theorem C20_action_runs_at_most_once (s0 : State) (fn : Call) (evs : List AEv) :
 /-- **C20, a cancellable action refuses to run again or after cancellation**: after any history, (1) once the action
 is cancelled `run()` raises `InvalidStateError`, does not call the function and changes nothing; (2) the same after a
 `run()` that returned normally; (3) the same whenever the action is done. -/
-theorem C20_action_refuses_rerun_and_after_cancel (s0 : State) (fn : Call) (evs : List AEv) :
+theorem C20_action_refuses_rerun_and_after_cancel (s0 : State) (fn : ActFn) (evs : List AEv) :
     let a := (newAction s0 fn).2
     let s := actRun a (newAction s0 fn).1 evs
     (runAction (actStep a s .cancel) a = (actStep a s .cancel, some .actionInvalid)) ∧
@@ -184,33 +184,28 @@ theorem C20_action_refuses_rerun_and_after_cancel (s0 : State) (fn : Call) (evs 
   · obtain ⟨act', hact', _⟩ := (actStep_inv h .run).calls_le
     exact runAction_refuses _ a act' hact' (run_none_done h hn)
 
-/-- **C20, a cancellable action reports its outcome through itself**: the first `run()` calls the function once; a
-returned value (a plain value or a future) becomes the action's result and an `Exception` becomes the action's
-exception, `run()` itself returns normally and nothing is logged; only a `BaseException` propagates out of `run()`
-(the action stays pending, the function is dropped). -/
-theorem C20_action_reports_through_itself (s0 : State) (fn : Call) :
+/-- **C20, a cancellable action reports its outcome through itself**: the first `run()` calls the function exactly once
+and drops it, and nothing is logged.  If the function does not get its own action cancelled while it runs: a returned value
+(a plain value or a future — it is *not* chained, the future is the result) becomes the action's result and an `Exception`
+becomes the action's exception, while `run()` itself returns normally; only a `BaseException` propagates out of `run()`
+(the action stays pending).  If the action is cancelled while its function runs (superseded by another request) it stays
+cancelled, a returned value is dropped and an exception propagates to the caller of `run()` ("no one left to report to"). -/
+theorem C20_action_reports_through_itself (s0 : State) (fn : ActFn) :
     let a := (newAction s0 fn).2
     let r := runAction (newAction s0 fn).1 a
     r.1.acts a = some { fn := none, calls := 1 } ∧ r.1.errs = s0.errs ∧
-    match fn with
-    | .ret v => r.2 = none ∧ r.1.st a = .result v
-    | .raise e => (e.isException = true → r.2 = none ∧ r.1.st a = .exc e) ∧
-                  (e.isException = false → r.2 = some e ∧ r.1.st a = .pending) := by
+    (fn.cancels = false →
+      match fn.out with
+      | .ret v => r.2 = none ∧ r.1.st a = .result v
+      | .raise e => (e.isException = true → r.2 = none ∧ r.1.st a = .exc e) ∧
+                    (e.isException = false → r.2 = some e ∧ r.1.st a = .pending)) ∧
+    (fn.cancels = true → r.1.st a = .cancelled ∧ r.2 = match fn.out with | .ret _ => none | .raise e => some e) := by
   intro a r
   have h1 : (newAction s0 fn).1.st a = .pending := by simp [a, newAction, alloc, State.setAct, State.st]
   have h2 : (newAction s0 fn).1.acts a = some { fn := some fn, calls := 0 } := by simp [a, newAction, alloc, State.setAct]
   have he : (newAction s0 fn).1.errs = s0.errs := by simp [newAction, alloc, State.setAct]
   have := run_fresh h1 h2
-  cases fn with
-  | ret v => simp only at this; exact ⟨this.2.2.1, by rw [← he]; exact this.2.2.2, this.1, this.2.1⟩
-  | raise e =>
-    simp only at this
-    by_cases hx : e.isException = true
-    · have t := this.1 hx
-      exact ⟨t.2.2.1, by rw [← he]; exact t.2.2.2, fun _ => ⟨t.1, t.2.1⟩, fun h => by rw [hx] at h; simp at h⟩
-    · have hx' : e.isException = false := by simpa using hx
-      have t := this.2 hx'
-      exact ⟨t.2.2.1, by rw [← he]; exact t.2.2.2, fun h => by rw [hx'] at h; simp at h, fun _ => ⟨t.1, t.2.1⟩⟩
+  exact ⟨this.1, by rw [← he]; exact this.2.1, this.2.2.1, this.2.2.2⟩
 
 /-- **C20, `create_task` captures the coroutine's outcome** — `N` loop futures with arbitrary designated outcomes `d`
 (values, futures, exceptions, cancellation, or never completed), any coroutine `c` awaiting some of them (`Coro`: awaits,
@@ -360,14 +355,20 @@ example :
 
 /-- an action whose function returns 5: run, run again, cancel, run -/
 example :
-    let a := (newAction {} (.ret (.plain 5))).2
-    let s := actRun a (newAction {} (.ret (.plain 5))).1 [.run, .run, .cancel, .run]
+    let a := (newAction {} { out := .ret (.plain 5) }).2
+    let s := actRun a (newAction {} { out := .ret (.plain 5) }).1 [.run, .run, .cancel, .run]
     s.st a = .result (.plain 5) ∧ (s.acts a).map (·.calls) = some 1 ∧ (runAction s a).2 = some .actionInvalid := by decide
 
 /-- an action cancelled before it ran never calls its function -/
 example :
-    let a := (newAction {} (.raise (.user 2))).2
-    let s := actRun a (newAction {} (.raise (.user 2))).1 [.cancel, .run]
+    let a := (newAction {} { out := .raise (.user 2) }).2
+    let s := actRun a (newAction {} { out := .raise (.user 2) }).1 [.cancel, .run]
     s.st a = .cancelled ∧ (s.acts a).map (·.calls) = some 0 := by decide
+
+/-- an action superseded (cancelled) while its function runs stays cancelled and lets the exception through -/
+example :
+    let a := (newAction {} { cancels := true, out := .raise (.user 2) }).2
+    let r := runAction (newAction {} { cancels := true, out := .raise (.user 2) }).1 a
+    r.1.st a = .cancelled ∧ r.2 = some (.user 2) ∧ (r.1.acts a).map (·.calls) = some 1 := by decide
 
 end Futures
